@@ -65,21 +65,31 @@ class Classes:
         go(name)
         return out
 
+    @staticmethod
+    def _members(node: ast.ClassDef) -> dict:
+        """name -> FunctionDef for the methods of a class body, class-level aliases included (`visit_A = visit_B = _helper`)."""
+        out = {n.name: n for n in node.body if isinstance(n, ast.FunctionDef)}
+        for n in node.body:
+            if isinstance(n, ast.Assign) and isinstance(n.value, ast.Name) and n.value.id in out:
+                for t in n.targets:
+                    if isinstance(t, ast.Name):
+                        out[t.id] = out[n.value.id]
+        return out
+
     def resolve(self, cls: str, meth: str) -> Optional[tuple[str, str, ast.FunctionDef]]:
         for c in self.mro(cls):
             rel, node = self.cls[c]
-            for n in node.body:
-                if isinstance(n, ast.FunctionDef) and n.name == meth:
-                    return rel, c, n
+            m = self._members(node)
+            if meth in m:
+                return rel, c, m[meth]
         return None
 
     def methods(self, cls: str) -> dict[str, tuple[str, str, ast.FunctionDef]]:
         out: dict = {}
         for c in reversed(self.mro(cls)):
             rel, node = self.cls[c]
-            for n in node.body:
-                if isinstance(n, ast.FunctionDef):
-                    out[n.name] = (rel, c, n)
+            for name, n in self._members(node).items():
+                out[name] = (rel, c, n)
         return out
 
 
@@ -578,6 +588,15 @@ class Emit:
                         ev.append((c.lineno, c.col_offset, ("print", self.tmpl(c.args[0]) if c.args else "")))
                     elif m in ("visit", "add_return", "print_action") or m in inline:
                         ev.append((c.lineno, c.col_offset, ("call", m, ", ".join(self.tmpl(a) if m == "add_return" else norm_stmt(a) for a in c.args))))
+                    else:
+                        r = self.C.resolve(self.cls, m)
+                        if r is not None:
+                            src_m = norm_stmt(r[2])
+                            # a helper that collects the names used by the action keeps `cut` when it contains the statement itself
+                            if "used.add('cut')" in src_m or "used |= {'cut'}" in src_m:
+                                ev.append((c.lineno, c.col_offset, ("keep", "cut")))
+                            if "self.cleanup_statements.append(" in src_m:
+                                ev.append((c.lineno, c.col_offset, ("stack", "push-in-helper", m)))
             return [x[2] for x in sorted(ev)]
 
         def run(seq, acc):
@@ -652,7 +671,11 @@ class Emit:
                 if txt == "self.cleanup_statements.pop()":
                     acc = [x for x in acc if not (x[0] == "cond" and x[1] == "self.cleanup_statements")] + [("stack", "pop")]
                     continue
-                acc = acc + events_of_expr(st)
+                evs = events_of_expr(st)
+                if any(e[0] == "stack" and e[1] == "push-in-helper" for e in evs) and isinstance(st, ast.Assign) and len(st.targets) == 1 \
+                        and isinstance(st.targets[0], ast.Name):
+                    evs = [("stack", "push-if", st.targets[0].id) if (e[0] == "stack" and e[1] == "push-in-helper") else e for e in evs]
+                acc = acc + evs
             out.append(acc + [("exit", "end")])
 
         run(list(fn.body), [])
@@ -722,7 +745,8 @@ def rule_t3(chk: Check, C: Classes):
                 problems["and"] = f"the conjuncts of an alternative must be joined by exactly one `and`: {cond}"
             # the cut item must get its variable: the names kept for the action include `cut` whenever the alternative has one
             # (an item whose name is not kept is emitted as `(True)`, and `if cut:` then never fires)
-            filters = any(x[0] == "cond" and x[1] == "action" and x[2] is True for x in p)
+            filters = any(x[0] == "cond" and x[1] == "action" and x[2] is True for x in p) and not any(
+                x[0] == "cond" and ((x[1] == "used is not None" and x[2] is False) or (x[1] == "used is None" and x[2] is True)) for x in p)
             if has_cut is True and filters and nitems:
                 first_visit = next(i for i, x in enumerate(p) if x[0] == "call" and x[1] == "visit")
                 if not any(x == ("keep", "cut") for x in p[:first_visit]):
@@ -863,7 +887,13 @@ def rule_t3(chk: Check, C: Classes):
             for p in ps:
                 depth = 0
                 for x in p:
-                    if x[0] == "stack":
+                    if x[0] == "stack" and x[1] == "push-if":
+                        # pushed inside a helper that reports it through the flag it returns: counts on the paths where the flag holds
+                        held = next((y[2] for y in p if y[0] == "cond" and y[1] == x[2]), None)
+                        depth += 1 if held is True else 0
+                    elif x[0] == "stack" and x[1] == "push-in-helper":
+                        depth += 1
+                    elif x[0] == "stack":
                         depth += 1 if x[1] == "push" else -1
                     elif x[0] == "print" and x[1].startswith("return") and depth > 0:
                         why = "a `return` is printed directly while a clean-up statement is registered (it is skipped in the generated method)"
